@@ -28,6 +28,8 @@ UNITS = {
 }
 
 UNITS["C02"] = [
+    dict(kind="structural", name="c02_sql_scoping", check="sql_actor_scoping", file="crates/klukai-types/src/agent.rs",
+         trusted=["heuristic SQL reading (see c03_sql_scoping)"]),
     dict(kind="verus", name="c02_booked", template="specs/c02_booked.vrs",
          under_contract=["BookedVersions::contains_version", "BookedVersions::last", "BookedVersions::snapshot", "BookedVersions::commit_snapshot", "BookedVersions::insert_partial"],
          vacuity=["contains_version", "snapshot", "commit_snapshot", "insert_partial"],
@@ -103,6 +105,8 @@ UNITS["C16"] = [
 ]
 
 UNITS["C05"] = [
+    dict(kind="structural", name="c05_sql_scoping", check="sql_actor_scoping", file="crates/klukai-agent/src/api/peer/mod.rs",
+         trusted=["heuristic SQL reading (see c03_sql_scoping)"]),
     dict(kind="verus", name="c05_serve", template="specs/c05_serve.vrs",
          under_contract=["frag_prefilter", "frag_empties_full", "frag_empties_partial", "frag_clip", "lemma_sql_selects_iff_overlap"],
          vacuity=["frag_prefilter", "frag_empties_full", "frag_empties_partial", "frag_clip"],
@@ -112,6 +116,11 @@ UNITS["C05"] = [
 ]
 
 UNITS["C03"] = [
+    dict(kind="structural", name="c03_sql_scoping", check="sql_actor_scoping", file="crates/klukai-agent/src/agent/util.rs",
+         trusted=["heuristic SQL reading: WHERE levels are split at parenthesised sub-SELECTs; only the presence of an actor constraint is checked, not its parameter binding"]),
+    dict(kind="verus", name="c03_batch", template="specs/c03_batch.vrs",
+         under_contract=["frag_seen_in_batch"], vacuity=["frag_seen_in_batch"],
+         assumptions=["RangeInclusiveMap<version, Option<PartialVersion>> stand-in (lookup per version); Iterator::all/any over version / seq ranges replaced by contract stand-ins that keep the real closures"]),
     dict(kind="verus", name="c03_changeset", template="specs/c03_changeset.vrs",
          under_contract=["Changeset::is_complete", "Changeset::is_empty", "Changeset::seqs", "Changeset::versions", "Changeset::last_seq"],
          vacuity=["Changeset::is_complete"],
@@ -154,10 +163,16 @@ UNITS["C09"] = [
 ]
 
 UNITS["C07"] = [
+    dict(kind="structural", name="c07_sql_scoping", check="sql_actor_scoping", file="crates/klukai-types/src/change.rs",
+         trusted=["heuristic SQL reading (see c03_sql_scoping)"]),
     dict(kind="verus", name="c07_broadcast", template="specs/c07_broadcast.vrs",
          under_contract=["frag_chunker_args", "frag_broadcast_msg"], vacuity=["frag_chunker_args", "frag_broadcast_msg"],
          assumptions=["the rows come from `SELECT … FROM crsql_changes WHERE db_version = ? AND site_id = crsql_site_id() ORDER BY seq ASC` (not interpreted)",
                       "tokio::spawn / tx_bcast.send deliver the constructed message (not decided)"]),
+    dict(kind="verus", name="c07_statements", template="specs/c07_statements.vrs",
+         under_contract=["frag_run_statements"], vacuity=["frag_run_statements"],
+         assumptions=["the outcome of a statement is SQLite's (uninterpreted predicate will_succeed); `.map_err(..)` and the rows-affected counter are dropped from the closure",
+                      "`iter().map(f).collect::<Result<Vec<_>,_>>()` replaced by a contract stand-in that keeps the real closure"]),
     dict(kind="structural", name="c07_sequence", check="local_write_sequence", file="crates/klukai-agent/src/api/public/mod.rs", fn="make_broadcastable_changes",
          trusted=["rusqlite Transaction: nothing is visible/durable before commit(); `?` returns early; dropping the transaction rolls back"]),
     dict(kind="structural", name="c07_insert_local", check="insert_local_changes", file="crates/klukai-types/src/change.rs", fn="insert_local_changes",
